@@ -580,7 +580,48 @@ func (w *vpC04Workload) run(steer bool, tag string) ([]string, string) {
 			}
 		}(calls)
 	}
-	wg.Wait()
+	finished := make(chan struct{})
+	go func() { wg.Wait(); close(finished) }()
+	if e.pc != nil {
+		// A deadline-less PipelineClient.Do can wait forever for a request that sits unflushed in
+		// the client's write buffer (the pipeline writer only arms its flush when the queue is
+		// empty at write time; a following, already expired or evicted work leaves it unarmed).
+		// That is a liveness matter outside C04; any newly written request flushes the buffer,
+		// so if the workload is not done after 1.5 s, trickle small deadline requests until it is.
+		select {
+		case <-finished:
+		case <-time.After(1500 * time.Millisecond):
+			vpExtra("C04.pipeline_workloads_nudged", 1)
+			stop := make(chan struct{})
+			var nwg sync.WaitGroup
+			for i := 0; i < 2*w.cfg.MaxConns; i++ {
+				nwg.Add(1)
+				go func(i int) {
+					defer nwg.Done()
+					for n := 0; ; n++ {
+						select {
+						case <-stop:
+							return
+						default:
+						}
+						req := AcquireRequest()
+						resp := AcquireResponse()
+						id := strconv.Itoa(900000 + i*10000 + n)
+						req.SetRequestURI("http://" + vpC04Hosts[0] + "/nudge/" + id)
+						req.Header.Set("X-Vp-Id", id)
+						e.pc.DoTimeout(req, resp, 40*time.Millisecond) //nolint:errcheck
+						ReleaseRequest(req)
+						ReleaseResponse(resp)
+						time.Sleep(5 * time.Millisecond)
+					}
+				}(i)
+			}
+			<-finished
+			close(stop)
+			nwg.Wait()
+		}
+	}
+	<-finished
 	e.close()
 
 	var complaints []string
